@@ -39,7 +39,8 @@ class Listener(threading.Thread):
 
 
 def build_app(prot, relaxed=False, validator=None):
-    from spyne import Application, Service, srpc, ComplexModel, Unicode, Integer, Array, XmlAttribute
+    from spyne import Application, Service, srpc, ComplexModel, Unicode, Integer, Array, XmlAttribute, AnyXml
+    from lxml import etree as _et
     from spyne.protocol.xml import XmlDocument
     from spyne.protocol.soap import Soap11, Soap12
     from spyne.server.wsgi import WsgiApplication
@@ -51,9 +52,10 @@ def build_app(prot, relaxed=False, validator=None):
         _type_info = [('t', Unicode), ('a', XmlAttribute(Unicode))]
 
     class Svc(Service):
-        @srpc(Unicode, Integer, C, Array(Unicode), _returns=Unicode)
-        def f(s, n, c, xs):
-            seen.append([s, n, getattr(c, 't', None) if c is not None else None, getattr(c, 'a', None) if c is not None else None, list(xs or [])])
+        @srpc(Unicode, Integer, C, Array(Unicode), AnyXml, _returns=Unicode)
+        def f(s, n, c, xs, ax):
+            axs = None if ax is None else (_et.tostring(ax).decode('utf8', 'replace') if hasattr(ax, 'tag') else repr(ax))
+            seen.append([s, n, getattr(c, 't', None) if c is not None else None, getattr(c, 'a', None) if c is not None else None, list(xs or []), axs])
             return u'|'.join(str(x) for x in seen[-1])
     P = {'xml': XmlDocument, 'soap11': Soap11, 'soap12': Soap12}[prot]
     kw = dict(resolve_entities=True, load_dtd=True, attribute_defaults=True, no_network=False, huge_tree=True) if relaxed else {}
@@ -137,6 +139,13 @@ def document(a, canary, dtd, port):
     item = 'g' + (ent if pos == 'text_item' else '') + 'h'
     body = ('<tns:f xmlns:tns="tns"><tns:s>%s</tns:s><tns:n>%s</tns:n><tns:c a="%s"%s><tns:t>%s</tns:t></tns:c>'
             '<tns:xs><tns:string>%s</tns:string></tns:xs></tns:f>' % (s, n, av, extra_attrs, t, item))
+    if pos == 'anyxml_text':
+        # a whole document (its own DOCTYPE included) travels as the escaped TEXT of the AnyXml argument
+        inner = prolog.replace('DOCTYPE f', 'DOCTYPE d') + '<d>' + ent + '</d>'
+        esc = inner.replace('&', '&amp;').replace('<', '&lt;').replace('>', '&gt;')
+        body = ('<tns:f xmlns:tns="tns"><tns:s>ab</tns:s><tns:n>5</tns:n><tns:c a="ef"><tns:t>cd</tns:t></tns:c>'
+                '<tns:xs><tns:string>gh</tns:string></tns:xs><tns:ax>%s</tns:ax></tns:f>' % esc)
+        prolog = ''
     if k.startswith('href_fanout_'):
         # the member c is a reference to r0; r_i holds `fan` references to r_(i+1); the last one holds the text
         body = ('<tns:f xmlns:tns="tns"><tns:s>ab</tns:s><tns:n>5</tns:n><tns:c href="#r0"/>'
@@ -222,6 +231,34 @@ def main():
     res = []
     for a in d['attacks']:
         n += 1
+        if a['prot'] == 'schema':
+            prolog, _ = document(a, canary, dtd, lst.port)
+            ent = '&leak;' if 'dtd' in a['kind'] or 'param' in a['kind'] else '&x;'
+            doc = (prolog.replace('DOCTYPE f', 'DOCTYPE xs:schema') + '<xs:schema xmlns:xs="http://www.w3.org/2001/XMLSchema" targetNamespace="urn:s">'
+                   '<xs:simpleType name="T"><xs:restriction base="xs:string"><xs:enumeration value="a%sb"/></xs:restriction></xs:simpleType></xs:schema>' % ent)
+            hits = lst.hits
+            out = {'called': False, 'fault': False, 'client': True, 'escape': False, 'text': '', 'err': '', 'nodes': 0, 'reqnodes': 1, 'delivered': ''}
+            t0 = time.time()
+            mark(n)
+            try:
+                from spyne.util.xml import parse_schema_string
+                res_ = parse_schema_string(doc.encode('utf8'))
+                out['text'] = repr(res_)[:2000]
+                for ns_, cd in (res_ or {}).items():
+                    for nm, cl in cd.items():
+                        out['text'] += ' %s=%r' % (nm, getattr(getattr(cl, 'Attributes', None), 'values', None))
+            except BaseException as e:
+                out['fault'] = True
+                out['err'] = '%s: %s' % (type(e).__name__, str(e)[:200])
+            out['seconds10'] = int((time.time() - t0) * 10)
+            out['mb'] = 0
+            blob = out['text']
+            out['canary'] = any(x in blob for x in ('FILECANARY-7f3a', 'DTDCANARY-2e8c', 'NETCANARY-5b2d'))
+            out['expanded'] = False
+            out['net_hits'] = lst.hits - hits
+            out['text'] = out['text'][:300]
+            res.append({'what': 'attack', 'n': n, 'a': a, 'out': out, 'request': doc[:400]})
+            continue
         key = (a['prot'], a.get('validator', 'none'))
         if key not in apps:
             apps[key] = build_app(a['prot'], validator='lxml' if a.get('validator') == 'lxml' else None)
